@@ -78,9 +78,14 @@ def generate(R, tier):
 
 
 def db_lines(dbm):
+    """The records in file order.  With three or more of them the [mtu] section is opened AGAIN half-way (another section in between): a section
+    continued further down accumulates (deterministic in dbm, so model and implementation see the same file)."""
     lines = ["[mtu]"]
     recs = []
+    reopen = len(dbm) // 2 if len(dbm) >= 3 and sum(dbm) % 2 else None
     for i, m in enumerate(dbm):
+        if i == reopen:
+            lines += ["[tcp:request]", "label = s:unix:X:y", "[mtu]"]
         lines.append("label = L%d" % i)
         lines.append("sig = %d" % m)
         recs.append((len(lines), m))
